@@ -5,12 +5,12 @@ go 1.23.0
 require (
 	github.com/fxamacker/cbor/v2 v2.8.0
 	github.com/notaryproject/notation-core-go v0.0.0
+	github.com/notaryproject/tspclient-go v1.0.0
 	golang.org/x/crypto v0.37.0
 )
 
 require (
 	github.com/golang-jwt/jwt/v4 v4.5.2 // indirect
-	github.com/notaryproject/tspclient-go v1.0.0 // indirect
 	github.com/veraison/go-cose v1.3.0 // indirect
 	github.com/x448/float16 v0.8.4 // indirect
 )
